@@ -712,6 +712,22 @@ def run_battery(ctx, exe, doc, known, hits):
             hits[key] = hits.get(key, 0) + 1
             continue
         bad.append("# %s : library %r, definition %r\n%s" % (x, got, exp, json.dumps({"source": doc["xml"], "ctx": doc["paths"][cnode], "type": ty, "expr": x, "expect": exp if not isinstance(exp, tuple) else list(exp)}, ensure_ascii=False)))
+    # wrong number of arguments: an error, not a value (and not a crash)
+    ARITY = ["set:difference(/)", "set:distinct()", "set:distinct(/, /)", "set:leading(/)", "set:has-same-node(/)", "math:max()",
+             "math:highest(/, /)", "math:abs()", "math:power(2)", "math:constant('PI')", "str:padding()", "str:align('a')",
+             "str:concat()", "str:encode-uri('a')", "exsl:object-type()", "exsl:node-set()", "xalan:evaluate()", "xalan:hasSameNodes(/)",
+             "xalan:distinct()", "id()", "id('a', 'b')", "generate-id(/, /)", "current(/)", "system-property()", "unparsed-entity-uri()",
+             "function-available()", "element-available()", "math:max(1)", "set:distinct('a')", "str:concat('a')", "set:leading(/, 1)"]
+    res = xpxrun.run_batches([{"id": "ar%d" % i, "source": doc["xml"], "ctx": "", "exprs": [(0, "str", x)], "extra_top": RTF_TOP}
+                              for i, x in enumerate(ARITY)], exe=exe)
+    for i, x in enumerate(ARITY):
+        rr = res["ar%d" % i]
+        ctx.cov["evaluations"] += 1
+        ctx.count("battery:arity")
+        if rr[0] == "ok" or rr[0] == "crash":
+            bad.append("# %s : %s, the definition gives an error (wrong number or type of arguments)\n%s" % (
+                x, "no result (crash?)" if rr[0] == "crash" else "library %r" % (rr[1].get("0"),),
+                json.dumps({"source": doc["xml"], "ctx": "", "type": "str", "expr": x}, ensure_ascii=False)))
     # generate-id over every node: unique, and a name (except the root: K-C02x-4)
     allnodes = [n for n in doc["nodes"] if n.kind != "nsdecl"]
     items = [(n.id, "str", "generate-id(%s)" % xpxrun.path_select(doc["paths"][n.id])) for n in allnodes]
@@ -835,7 +851,7 @@ def run_part(ctx):
     bdoc = make_doc(__import__("random").Random(7), "small")
     bad += run_battery(ctx, exe, bdoc, known, hits)
     bad += run_battery(ctx, exe, make_doc(ctx.rng), known, hits)
-    n_docs = 60 if not ctx.thorough else 500
+    n_docs = 150 if not ctx.thorough else 1500
     batches = make_batches(ctx, n_docs)
     ctx.cov["samples"] = (ctx.cov.get("samples") or []) + [xpgen.p_expr(it["ast"]) for b in batches[:3] for it in b["items"] if it["cls"] != "arg"][:12]
     corr, orc = run_stream(ctx, exe, model, batches, known, hits, stats)
